@@ -1022,3 +1022,6 @@ def run(ctx):
     # "no two objects overlap": every module record owns its name string and CodeView record (same rule instance as C08/identity-per-mapping)
     from rules import c08 as _c08i
     _c08i.rule_identity_per_mapping(ctx, R="C01/module-records-fresh")
+    # the exception context may share bytes only with the BLAMED thread's context: which entry that is, is decided by tid (same rule instance as C05/branch-select)
+    from rules import c05 as _c05bs
+    _c05bs.rule_branch_select(ctx, R="C01/exception-context-of-blamed-tid")
